@@ -5,6 +5,7 @@ package main
 import (
 	"context"
 	"fmt"
+	"github.com/herohde/morlock/cmd/sargon/sargon"
 	"math"
 	"strings"
 	"sync/atomic"
@@ -442,6 +443,43 @@ func casesSearch(c *caseCtx, prop string) {
 			}
 			runSearchCase(c, zt, zseed, f, nil, cfg)
 		}
+		// a search restricted to one root move (Context.Ponder, as the console's per-move breakdown uses it)
+		// equals the unrestricted search of the position after that move, one ply shallower - also with the
+		// SARGON leaf that runs a nested one-ply search when in check
+		nponder := 0
+		for _, f := range []string{fen.Initial, "rnbqkbnr/pppp1ppp/8/4p3/4P3/8/PPPP1PPP/RNBQKBNR w KQkq e6 0 2", "r1bqkbnr/pppp1ppp/2n5/4p3/4P3/5N2/PPPP1PPP/RNBQKB1R w KQkq - 2 3", "6k1/5ppp/8/8/8/8/5PPP/R5K1 w - - 0 1"} {
+			pos, turn, np, fm, err := fen.Decode(f)
+			if err != nil {
+				continue
+			}
+			for _, leafKind := range []string{"static", "sargon"} {
+				var leaf search.QuietSearch = search.Leaf{Eval: eval.Material{}}
+				if leafKind == "sargon" {
+					leaf = sargon.OnePlyIfChecked{Leaf: search.Leaf{Eval: eval.Material{}}}
+				}
+				s := search.AlphaBeta{Eval: leaf}
+				for _, d := range []int{2, 3} {
+					for _, m := range legalMoves(pos, turn) {
+						b := board.NewBoard(zt, pos, turn, np, fm)
+						_, got, _, e1 := s.Search(context.Background(), &search.Context{TT: search.NoTranspositionTable{}, Ponder: []board.Move{m}}, b, d)
+						b2 := board.NewBoard(zt, pos, turn, np, fm)
+						b2.PushMove(m)
+						_, child, _, e2 := s.Search(context.Background(), &search.Context{TT: search.NoTranspositionTable{}}, b2, d-1)
+						nponder++
+						if e1 != nil || e2 != nil {
+							continue
+						}
+						want := eval.IncrementMateDistance(child).Negate()
+						le := func(a, b eval.Score) bool { return !b.Less(a) }
+						if !(le(got, want) && le(want, got)) {
+							fmt.Printf("IMPLVIOL ponder %s leaf=%s depth=%d move=%s :: the search restricted to the move returns %s, the search of the position after it (one ply less, negated) %s prop=C03 key=ponder\n", f, leafKind, d, uciMove(m), scoreTok(got), scoreTok(want))
+							break
+						}
+					}
+				}
+			}
+		}
+		fmt.Printf("COUNT ponder %d\n", nponder)
 		// searches on a forked board whose history repeats the set-up position / the position after the last
 		// irreversible move (the third occurrence lies inside the tree)
 		for _, q := range []bool{false, true} {
@@ -498,6 +536,48 @@ func casesSearch(c *caseCtx, prop string) {
 		}
 		// the true value of a new game does not depend on what the engine searched in the game before
 		engineResetTableChecks(c, "C13")
+		// quiescence trees of tens of thousands of nodes (many heavy pieces en prise): the value returned with
+		// the full window is the value v; every narrowed window must clip exactly that v
+		for _, f := range []string{"2NkqR1Q/Br1Br3/1Rq1q3/1Q2r1n1/1K6/1r3q1Q/1Q3QQ1/2b1R1R1 w - - 0 1", "1k1q1r1Q/rB1Rq3/1q1Q1r2/2Rq1Q2/1Q1r1q2/2q1Q1R1/1R1Q1q1r/1K4Rq w - - 0 1"} {
+			pos, turn, np, fm, err := fen.Decode(f)
+			if err != nil || pos == nil || pos.IsChecked(turn.Opponent()) {
+				continue
+			}
+			qs := search.Quiescence{Explore: capturesOnly, Eval: search.Leaf{Eval: eval.Material{}}}
+			b0 := board.NewBoard(zt, pos, turn, np, fm)
+			done := make(chan eval.Score, 1)
+			go func() {
+				_, v := qs.QuietSearch(context.Background(), &search.Context{Alpha: eval.NegInfScore, Beta: eval.InfScore, TT: search.NoTranspositionTable{}}, b0)
+				done <- v
+			}()
+			var v eval.Score
+			select {
+			case v = <-done:
+			case <-time.After(20 * time.Second):
+				continue // too large for this machine: skip
+			}
+			fmt.Printf("COUNT bigq 1\n")
+			le := func(a, b eval.Score) bool { return !b.Less(a) }
+			for _, off := range []float32{-6.5, -0.5, 0.5, 4.5} {
+				a := eval.HeuristicScore(v.Pawns + eval.Pawns(off) - 0.5)
+				bb := eval.HeuristicScore(v.Pawns + eval.Pawns(off) + 0.5)
+				b1 := board.NewBoard(zt, pos, turn, np, fm)
+				_, r := qs.QuietSearch(context.Background(), &search.Context{Alpha: a, Beta: bb, TT: search.NoTranspositionTable{}}, b1)
+				ok := true
+				switch {
+				case a.Less(v) && v.Less(bb):
+					ok = le(r, v) && le(v, r)
+				case le(v, a):
+					ok = le(v, r) && le(r, a)
+				default:
+					ok = le(bb, r) && le(r, v)
+				}
+				if !ok {
+					fmt.Printf("IMPLVIOL bigq %s window=(%s,%s) :: quiescence returned %s, with the full window %s prop=C13 key=big-quiescence\n", f, scoreTok(a), scoreTok(bb), scoreTok(r), scoreTok(v))
+					break
+				}
+			}
+		}
 		// one table kept along a game with repetitions: the root is searched, the pieces shuffle out and
 		// back twice, the root is searched again - successors that now are third occurrences are worth 0
 		// whatever the table remembers about them
@@ -558,6 +638,7 @@ func casesSearch(c *caseCtx, prop string) {
 		gameTableChecks(c)
 		consoleTableChecks(c)
 		engineResetTableChecks(c, "C11")
+		uciTableSessions(c)
 	case "C12":
 		for i := 0; i < c.scale(25, 400); i++ {
 			f := pick()
@@ -565,6 +646,19 @@ func casesSearch(c *caseCtx, prop string) {
 			cfg.depths = []int{2 + c.r.Intn(2)}
 			cfg.quiet = c.r.Intn(3) == 0
 			cfg.tt = "size:65536"
+			if i%3 == 1 {
+				// a narrowed root window (aspiration): halts inside the quiet search must still be reported
+				m := materialOf(f)
+				a, b := windowAround(c, m), windowAround(c, m)
+				if b.Less(a) {
+					a, b = b, a
+				}
+				if a.Less(b) {
+					cfg.low, cfg.high = a, b
+					cfg.depths = []int{1 + c.r.Intn(2)}
+					cfg.quiet = true
+				}
+			}
 			// uncancelled control run
 			runSearchCase(c, zt, zseed, f, nil, cfg)
 			// cancellation at selected poll indices, then a clean search on the same table
@@ -822,7 +916,12 @@ func gameTableChecks(c *caseCtx) {
 		if g < scripted {
 			quiet = g%2 == 0
 		}
+		// every fifth game with the SARGON leaf (a nested one-ply search when in check, sharing the context)
+		sargonLeaf := g >= scripted && g%5 == 0
 		mk := func() search.Search {
+			if sargonLeaf {
+				return search.AlphaBeta{Eval: sargon.OnePlyIfChecked{Leaf: search.Leaf{Eval: eval.Material{}}}}
+			}
 			if quiet {
 				return search.AlphaBeta{Eval: search.Quiescence{Explore: capturesOnly, Eval: search.Leaf{Eval: eval.Material{}}}}
 			}
@@ -886,6 +985,27 @@ func gameTableChecks(c *caseCtx) {
 			}
 			played = append(played, uciMove(m))
 			if b.Result().Outcome == board.Draw {
+				break
+			}
+		}
+	}
+	// the SARGON leaf on check-rich positions: depth 1 then 2 then 3 on one table against no table
+	for _, f := range []string{"rn2k2r/6p1/1pp2p1p/p1Pp2Pn/3QqP2/P3PK2/P7/R1B3R1 w k - 1 30", "r3k2r/p1ppqpb1/bn2pnp1/3PN3/1p2P3/2N2Q1p/PPPBBPPP/R3K2R w KQkq - 0 1", "6k1/5ppp/8/8/8/8/5PPP/R5K1 w - - 0 1", "3rk3/8/8/8/8/8/3R4/3K4 w - - 0 1"} {
+		pos, turn, np, fm, err := fen.Decode(f)
+		if err != nil {
+			continue
+		}
+		s := search.AlphaBeta{Eval: sargon.OnePlyIfChecked{Leaf: search.Leaf{Eval: eval.Material{}}}}
+		tt := search.NewTranspositionTable(ctx, 1<<20)
+		for d := 1; d <= 3; d++ {
+			b1 := board.NewBoard(zt, pos, turn, np, fm)
+			b2 := board.NewBoard(zt, pos, turn, np, fm)
+			_, withT, _, e1 := s.Search(ctx, &search.Context{TT: tt}, b1, d)
+			_, without, _, e2 := s.Search(ctx, &search.Context{TT: search.NoTranspositionTable{}}, b2, d)
+			n++
+			le := func(a, b eval.Score) bool { return !b.Less(a) }
+			if e1 == nil && e2 == nil && !(le(withT, without) && le(without, withT)) {
+				fmt.Printf("IMPLVIOL tablegame %s leaf=sargon depth=%d :: with the shared table the search returns %s, without a table %s prop=C11 key=sargon-leaf-table\n", f, d, scoreTok(withT), scoreTok(without))
 				break
 			}
 		}
